@@ -19,7 +19,12 @@ prop(
          "functions, unary minus, offset, absent, label_replace) over 1-2 references drawn from: metric selector by name (with and "
          "without matchers), {__name__=\"N\"}, ALERTS / ALERTS_FOR_STATE{alertname=\"N\"} (also with further matchers), "
          "{__name__=\"ALERTS\",alertname=\"N\"}, ALERTS without alertname, ALERTS{alertname!=\"N\"}, up. One expression in six selects the SAME metric two or three times with different names (several ALERTS{alertname=..}, "
-         "several ALERTS_FOR_STATE, several plain selectors). One file in three also holds a rule with a rule-level defect (recording "
+         "several ALERTS_FOR_STATE, several plain selectors). One expression in eight is one pint cannot parse (mad_over_time(foo[5m]), limitk(2, foo), 'sum(', 'foo{': experimental "
+         "functions pint never enables, broken queries; they mention no vocabulary name, so such a rule is a provider but never a "
+         "dependant); every history that expects a warning ON a removed rule with such an expression is forced through the real binary, "
+         "because removed entries are filtered in cmd/pint (checkRules). File 'alerts' and file 'alerts/g.yaml' exclude each other in the "
+         "path pool and a file-dir commit pair deletes one and creates the other in the next commit. "
+         "One file in three also holds a rule with a rule-level defect (recording "
          "rule with for/annotations, alert without expr, alert+record, duplicated key, bad label name/value; also added/removed on the "
          "branch) - such a rule is neither provider nor dependant, and the warnings for valid rules removed next to it are still "
          "demanded; one file in four holds two adjacent duplicate providers of equal height. The branch (1-4 commits, plus the directed "
